@@ -53,8 +53,7 @@ Example gate_nonvacuous :
   emits KSection true MWriteLine false DEBUG (Some 8%Z) = true.
 Proof. vm_compute. auto. Qed.
 
-(* ======================================================================================================================
-   The gate composed with the section model (Model/GatedSection.v): write(text, flags) / write_line(text, flags) /
+(* ===============================================================================================================   The gate composed with the section model (Model/GatedSection.v): write(text, flags) / write_line(text, flags) /
    overwrite(text) / clear(n) on sections of one stream, every section with its own quiet / verbosity settings that
    set_quiet / set_verbosity change on the way.  A refused call must not only be silent at once: it must leave no trace,
    or what it was given is printed LATER, when an older section is written to and the newer ones are printed again
@@ -104,12 +103,39 @@ Print Assumptions refused_arguments_do_not_matter.
    exactly the stacked visible contents of the sections - which are the contents the allowed calls wrote (the Section.v
    run of erase) -, every row count is right, the style stack is empty. *)
 Theorem gated_screen_is_stack : forall w, 1 <= w -> forall f0 ops, is_ansi f0 -> f_stack f0 = [] ->
-  good_opsb (f_styles f0) (erase [] ops) = true ->
-  exists st f es, grun true w [] [] f0 ops = Ok (st, gates_after [] ops, f, es) /\
-    srun true w [] f0 (erase [] ops) = Ok (st, f, es) /\
+  good_opsb (f_styles f0) (erase gates0 ops) = true ->
+  exists st f es, grun true w [] gates0 f0 ops = Ok (st, gates_after gates0 ops, f, es) /\
+    srun true w [] f0 (erase gates0 ops) = Ok (st, f, es) /\
     feed w term_init es = screen w (f_styles f0) st /\ Forall (sec_ok w (f_styles f0)) st /\ fmt_ok (f_styles f0) f.
 Proof. exact gated_screen_lemma. Qed.
 Print Assumptions gated_screen_is_stack.
+
+(* (d) A section STARTS with the settings of its output: after output.section() the new section's quiet flag and verbosity
+   are those the output has at that moment (and its indentation too) - so what a quiet output would refuse is refused
+   through its sections as well, until set_quiet / set_verbosity are called on the section itself.  (The code before
+   /repo e696a15 built every section not quiet, verbosity NORMAL.) *)
+Theorem section_starts_with_its_outputs_settings : forall gs,
+  g_secs (gates_step gs GCreate) = g_secs gs ++ [g_parent gs] /\ sop_of gs GCreate = Some (SCreate (g_pindent gs)).
+Proof. exact created_inherits. Qed.
+Print Assumptions section_starts_with_its_outputs_settings.
+(* ... hence: whatever a section of a quiet output is asked to write, overwrite, clear or record before anybody touches its
+   own settings leaves no trace *)
+Theorem section_of_quiet_output_is_silent : forall ansi w st gs f o i,
+  g_quiet (g_parent gs) = true -> i = length (g_secs gs) ->
+  (match o with GWrite j _ _ _ | GOverwrite j _ | GClear j _ | GAddContent j _ => j = i | _ => False end) ->
+  forall st1 gs1 f1 e1, gstep ansi w st gs f GCreate = Ok (st1, gs1, f1, e1) ->
+  gstep ansi w st1 gs1 f1 o = Ok (st1, gs1, f1, []).
+Proof.
+  intros ansi w st gs f o i Hq Hi Ho st1 gs1 f1 e1 H1. apply refused_invisible.
+  unfold gstep in H1. cbn [sop_of allowed] in H1.
+  destruct (sec_step ansi w st f (SCreate (g_pindent gs))) as [[[a b] c]|]; cbn [bind fst snd] in H1; [|discriminate].
+  inversion H1; subst gs1.
+  assert (forall fl, asks (gates_step gs GCreate) (length (g_secs gs)) fl = false) as HA.
+  { intros fl. unfold asks, gate_of. cbn [gates_step with_secs g_secs]. rewrite app_nth2 by apply le_n. rewrite PeanoNat.Nat.sub_diag. cbn [nth].
+    rewrite Hq. reflexivity. }
+  destruct o; try contradiction; cbn [allowed]; subst; apply HA.
+Qed.
+Print Assumptions section_of_quiet_output_is_silent.
 
 (* the groups of calls the driver runs (run_C10S) are the run of their concatenation, one emit list per group *)
 Theorem groups_are_one_run : forall ansi w groups st gs f st' gs' f' ess,
@@ -128,21 +154,21 @@ Definition t_later : str := [108;97;116;101;114]%N.           (* later *)
    sequence without the refused call, no cell of it is an 'M', the screen shows older / later, section 1 has no content. *)
 Example c10g_refused_text_absent :
   let ops := [GCreate; GCreate; GWrite 0 t_older None true; GWrite 1 t_mark (Some VERBOSE) true; GWrite 0 t_later None true] in
-  match grun true 10 [] [] g_f ops, grun true 10 [] [] g_f [GCreate; GCreate; GWrite 0 t_older None true; GWrite 0 t_later None true] with
+  match grun true 10 [] gates0 g_f ops, grun true 10 [] gates0 g_f [GCreate; GCreate; GWrite 0 t_older None true; GWrite 0 t_later None true] with
   | Ok (st, _, _, es), Ok (st', _, _, es') =>
       es = es' /\ st = st' /\ existsb (fun e => match e with Ch 77%N => true | _ => false end) es = false
       /\ rows (feed 10 term_init es) = [t_older; t_later; []] /\ map sc_content st = [[t_older; t_later]; []]
-      /\ kept [] ops = [GCreate; GCreate; GWrite 0 t_older None true; GWrite 0 t_later None true]
+      /\ kept gates0 ops = [GCreate; GCreate; GWrite 0 t_older None true; GWrite 0 t_later None true]
   | _, _ => False
   end.
 Proof. vm_compute. repeat split. Qed.
 (* the same with a quiet newer section, and the allowed write when the section is verbose enough *)
 Example c10g_quiet_and_verbose :
-  (match grun true 10 [] [] g_f [GCreate; GCreate; GWrite 0 t_older None true; GSetQuiet 1 true; GWrite 1 t_mark None true;
+  (match grun true 10 [] gates0 g_f [GCreate; GCreate; GWrite 0 t_older None true; GSetQuiet 1 true; GWrite 1 t_mark None true;
                                  GOverwrite 1 t_mark; GSetQuiet 1 false; GWrite 0 t_later None true] with
    | Ok (st, _, _, es) => rows (feed 10 term_init es) = [t_older; t_later; []] /\ map sc_content st = [[t_older; t_later]; []]
    | Err _ => False end) /\
-  (match grun true 10 [] [] g_f [GCreate; GCreate; GWrite 0 t_older None true; GSetVerbosity 1 LVerbose;
+  (match grun true 10 [] gates0 g_f [GCreate; GCreate; GWrite 0 t_older None true; GSetVerbosity 1 LVerbose;
                                  GWrite 1 t_mark (Some VERBOSE) true; GWrite 0 t_later None true] with
    | Ok (st, _, _, es) => rows (feed 10 term_init es) = [t_older; t_later; t_mark; []] /\ map sc_content st = [[t_older; t_later]; [t_mark]]
    | Err _ => False end).
@@ -155,15 +181,27 @@ Proof. vm_compute. repeat split. Qed.
 Example c10_refused_clear_leaves_no_trace :
   let ops := [GCreate; GCreate; GWrite 0 t_older None true; GWrite 1 t_mark None true; GSetQuiet 1 true; GClear 1 None;
               GOverwrite 1 t_later; GClear 1 (Some 1); GSetQuiet 1 false; GWrite 0 t_later None true] in
-  match grun true 10 [] [] g_f ops with
+  match grun true 10 [] gates0 g_f ops with
   | Ok (st, _, _, es) => rows (feed 10 term_init es) = [t_older; t_later; t_mark; []] /\ map sc_content st = [[t_older; t_later]; [t_mark]]
                          /\ map sc_lines st = [2; 1]
-                         /\ kept [] ops = [GCreate; GCreate; GWrite 0 t_older None true; GWrite 1 t_mark None true; GSetQuiet 1 true;
+                         /\ kept gates0 ops = [GCreate; GCreate; GWrite 0 t_older None true; GWrite 1 t_mark None true; GSetQuiet 1 true;
                                           GSetQuiet 1 false; GWrite 0 t_later None true]
   | Err _ => False
   end.
 Proof. vm_compute. repeat split. Qed.
 
+(* the two pristine findings of the reflection-driven table, on the model of the repaired code:
+   a quiet OUTPUT, then section(), then write_line into it: nothing; the public add_content of a quiet section, then a write
+   into the older section: the text is nowhere *)
+Example c10_section_of_quiet_output_and_add_content :
+  (match grun true 10 [] gates0 g_f [GParentQuiet true; GCreate; GWrite 0 t_mark None true] with
+   | Ok (st, gs, _, es) => es = [] /\ map sc_content st = [[]] /\ map g_quiet (g_secs gs) = [true] | Err _ => False end) /\
+  (match grun true 10 [] gates0 g_f [GCreate; GCreate; GWrite 0 t_older None true; GSetQuiet 1 true; GAddContent 1 t_mark;
+                                     GWrite 0 t_later None true] with
+   | Ok (st, _, _, es) => rows (feed 10 term_init es) = [t_older; t_later; []] /\ map sc_content st = [[t_older; t_later]; []]
+                          /\ existsb (fun e => match e with Ch 77%N => true | _ => false end) es = false
+   | Err _ => False end).
+Proof. vm_compute. repeat split. Qed.
 (* ==== added after the Coq review (REPORT "C10: minor issues" 1 and 3) ====
    Note on gate_iff and refused_call_is_invisible above: both hold by unfolding - emits is forallb may_write over the
    hand-written table `path` (transcribed from the method bodies), gstep is "the Section.v step iff allowed, else the
@@ -205,33 +243,33 @@ Print Assumptions emits_monotone_instance.
      Section.v        returns the state unchanged for an index without section.
    So on a nonexistent index gstep is the identity and returns Ok - whether the flags would pass the default gate or not: *)
 Theorem gstep_on_nonexistent_section : forall ansi w st gs f o i,
-  target o = Some i -> length st <= i -> length gs <= i -> gstep ansi w st gs f o = Ok (st, gs, f, []).
+  target o = Some i -> length st <= i -> length (g_secs gs) <= i -> gstep ansi w st gs f o = Ok (st, gs, f, []).
 Proof. exact gstep_nonexistent_section_lemma. Qed.
 Print Assumptions gstep_on_nonexistent_section.
-Theorem gate_asked_out_of_range_is_the_default : forall gs o i fl, gate_asked o = Some (i, fl) -> length gs <= i ->
+Theorem gate_asked_out_of_range_is_the_default : forall gs o i fl, gate_asked o = Some (i, fl) -> length (g_secs gs) <= i ->
   allowed gs o = may_write false NORMAL fl.
 Proof. exact allowed_out_of_range_lemma. Qed.
 Print Assumptions gate_asked_out_of_range_is_the_default.
 (* UNDER THE IN-RANGE GUARD (the only calls that exist in the code): the gate asked is the one of the section itself, with
    that section's own quiet / verbosity ... *)
-Theorem gate_asked_is_the_sections_own : forall gs o i fl g, gate_asked o = Some (i, fl) -> nth_error gs i = Some g ->
+Theorem gate_asked_is_the_sections_own : forall gs o i fl g, gate_asked o = Some (i, fl) -> nth_error (g_secs gs) i = Some g ->
   allowed gs o = may_write (g_quiet g) (g_verb g) fl.
 Proof. exact allowed_in_range_lemma. Qed.
 Print Assumptions gate_asked_is_the_sections_own.
 (* ... and the step is: refused iff THAT gate refuses the flags asked, and then the identity (refused_call_is_invisible);
    otherwise the Section.v step, the settings untouched *)
-Theorem gstep_in_range : forall ansi w st gs f o i fl g so, gate_asked o = Some (i, fl) -> sop_of o = Some so ->
-  nth_error gs i = Some g ->
+Theorem gstep_in_range : forall ansi w st gs f o i fl g so, gate_asked o = Some (i, fl) -> sop_of gs o = Some so ->
+  nth_error (g_secs gs) i = Some g ->
   gstep ansi w st gs f o =
     if may_write (g_quiet g) (g_verb g) fl
     then do a <- sec_step ansi w st f so; Ok (fst (fst a), gs, snd (fst a), snd a)
     else Ok (st, gs, f, []).
 Proof. exact gstep_in_range_lemma. Qed.
 Print Assumptions gstep_in_range.
-(* the settings stay parallel to the sections along every run that starts so (every run of the driver starts from [] []),
+(* the settings stay parallel to the sections along every run that starts so (every run of the driver starts from [] and gates0),
    hence "the index names a section" and "the index names a gate" are one condition *)
 Theorem run_keeps_settings_parallel : forall ansi w ops st gs f st' gs' f' es,
-  grun ansi w st gs f ops = Ok (st', gs', f', es) -> length gs = length st -> length gs' = length st'.
+  grun ansi w st gs f ops = Ok (st', gs', f', es) -> length (g_secs gs) = length st -> length (g_secs gs') = length st'.
 Proof. exact grun_parallel_lemma. Qed.
 Print Assumptions run_keeps_settings_parallel.
 
@@ -239,9 +277,9 @@ Print Assumptions run_keeps_settings_parallel.
    section 0 and refused on section 1 - each by its own gate.  Out of range (index 5): write_line with flags VERBOSE (the
    default gate would refuse) and without flags (it would allow), overwrite, clear, set_quiet: all the identity, all Ok. *)
 Example section_index_instance :
-  match grun true 10 [] [] g_f [GCreate; GCreate; GSetQuiet 1 true] with
+  match grun true 10 [] gates0 g_f [GCreate; GCreate; GSetQuiet 1 true] with
   | Ok (st, gs, f, _) =>
-      length st = 2 /\ length gs = 2 /\
+      length st = 2 /\ length (g_secs gs) = 2 /\
       allowed gs (GWrite 0 t_mark None true) = true /\ allowed gs (GWrite 1 t_mark None true) = false /\
       (match gstep true 10 st gs f (GWrite 0 t_mark None true) with
        | Ok (st', gs', _, es) => map sc_content st' = [[t_mark]; []] /\ gs' = gs /\ es <> [] | Err _ => False end) /\
